@@ -5710,6 +5710,47 @@ impl DelaunayCheckPolicy {
     }
 }
 
+// =============================================================================
+// VERIFICATION HOOKS (feature "verif-hooks"; off by default)
+// =============================================================================
+
+/// Hidden (non-observable through the public API) state of a [`DelaunayTriangulation`],
+/// exposed read-only for sound state de-duplication by the external verification harness.
+#[cfg(feature = "verif-hooks")]
+#[derive(Clone, Debug, PartialEq, Eq, Hash)]
+pub struct VerifHiddenState {
+    /// Cached locate hint.
+    pub last_inserted_cell: Option<CellKey>,
+    /// Insertion counter used to schedule repairs/checks.
+    pub repair_insertion_count: usize,
+    /// `None` if the spatial index has not been built; otherwise `(usable, sorted keys)`.
+    pub spatial_index: Option<(bool, Vec<VertexKey>)>,
+}
+
+#[cfg(feature = "verif-hooks")]
+impl<K, U, V, const D: usize> DelaunayTriangulation<K, U, V, D>
+where
+    K: Kernel<D>,
+    U: DataType,
+    V: DataType,
+{
+    /// Read-only digest of the insertion caches.
+    #[must_use]
+    pub fn verif_hidden_state(&self) -> VerifHiddenState {
+        VerifHiddenState {
+            last_inserted_cell: self.insertion_state.last_inserted_cell,
+            repair_insertion_count: self.insertion_state.delaunay_repair_insertion_count,
+            spatial_index: self.spatial_index.as_ref().map(HashGridIndex::verif_entries),
+        }
+    }
+
+    /// Raw mutable access to the underlying TDS **without** invalidating any cache
+    /// (fault injection only).
+    pub const fn verif_tds_raw_mut(&mut self) -> &mut Tds<K::Scalar, U, V, D> {
+        &mut self.tri.tds
+    }
+}
+
 #[cfg(test)]
 mod tests {
     use super::*;
